@@ -88,6 +88,7 @@ class SMT2Mem(object):
                 res = bv_concat(self[index], res)
         else:
             for i in range(1, size // 8):
+                index = bvadd(addr, bit_vec_val(i, addr_size))
                 res = bv_concat(res, self[index])
         if size == original_size:
             return res
